@@ -16,7 +16,7 @@ import drivercases as dc
 from asyncchecks import project_async
 from simgen import EINTR, EAGAIN, EPIPE, ECONNRESET, POLLIN, POLLOUT, POLLERR, POLLHUP
 
-THEOREMS = ["unlimited_send_on_dead_peer_throws", "try_send_on_dead_peer_throws", "receive_on_reset_throws", "receive_after_close_throws_closed",
+THEOREMS = ["unlimited_send_on_dead_peer_throws", "try_send_on_dead_peer_throws", "limited_send_on_dead_peer_throws", "receive_on_reset_throws", "receive_after_close_throws_closed",
             "delivered_is_what_recv_returned", "failing_send_leaves_a_prefix", "every_send_uses_nosignal", "data_before_disconnect"]
 MSG_NOSIGNAL = 16384
 ENOTCONN = 107
